@@ -119,8 +119,8 @@ class Acc:
         self.evals += o.evals
         self.nontrivial += o.nontrivial
         self.viol_count += o.viol_count
-        for v in o.violations:
-            if len(self.violations) < 4 * self.MAXV:
+        for v in o.violations:  # at most 2 per key, so a flood under one key cannot crowd out another key
+            if len(self.violations) < 400 and sum(1 for w in self.violations if w["key"] == v["key"]) < 2:
                 self.violations.append(v)
         for s in o.samples:
             if len(self.samples) < 6:
@@ -140,11 +140,21 @@ def _call(args):
     idx, unit = args
     fn = _WORKER["fn"]
     try:
-        return idx, fn(unit, _WORKER["ctx"]), None
+        r = fn(unit, _WORKER["ctx"])
+        for v in getattr(r, "violations", ()):
+            v.setdefault("unit", unit)  # lets a replay fall back to re-running the whole unit (history-dependent results)
+        return idx, r, None
     except HarnessError as e:
         return idx, None, f"HarnessError in unit {unit!r}: {e}\n{traceback.format_exc()}"
     except BaseException as e:  # a bug in the harness itself
         return idx, None, f"{type(e).__name__} in unit {unit!r}: {e}\n{traceback.format_exc()}"
+
+
+def _worker_init():
+    if os.environ.get("VERIF_NO_DECOY") != "1":
+        from vf import lib
+
+        lib.decoy_prelude()
 
 
 def run_units(units, fn, ctx, progress=None):
@@ -158,6 +168,7 @@ def run_units(units, fn, ctx, progress=None):
     results = [None] * len(units)
     errors = []
     if ctx.jobs <= 1 or len(units) <= 1:
+        _worker_init()
         for i in order:
             idx, r, err = _call((i, units[i]))
             results[idx] = r
@@ -165,7 +176,7 @@ def run_units(units, fn, ctx, progress=None):
                 errors.append(err)
     else:
         mpctx = multiprocessing.get_context("fork")
-        with mpctx.Pool(min(ctx.jobs, len(units))) as pool:
+        with mpctx.Pool(min(ctx.jobs, len(units)), initializer=_worker_init) as pool:
             for idx, r, err in pool.imap_unordered(_call, [(i, units[i]) for i in order], chunksize=1):
                 results[idx] = r
                 if err:
@@ -225,8 +236,10 @@ print("property holds on this case")
 '''
 
 
-def write_replay(v):
+def write_replay(v, ctx=None):
     pid = v["property"]
+    if ctx is not None:
+        v = dict(v, tier=ctx.tier, seed=ctx.seed)
     d = os.path.join(os.environ.get("VERIF_REPLAY_DIR") or os.path.join(ROOT, "replays"), pid)
     os.makedirs(d, exist_ok=True)
     blob = json.dumps(v, sort_keys=True, indent=1, default=str)
@@ -299,7 +312,7 @@ def finish(pid, ctx, level, acc, rule, extra, assumptions, t0, confirm=True):
         out_lines.append(f"KNOWN-FINDING: property={pid} {k[1]} [key={v['key']}]")
     reported = 0
     for v, _ in new[:5]:
-        path = write_replay(v)
+        path = write_replay(v, ctx)
         if confirm:
             ok, log = confirm_replay(pid, path)
             if not ok:
